@@ -367,7 +367,13 @@ def b3(e: Engine, rep: Report):
     # consumers: exactly one _perm_fail per group
     for meth in ('_handle_partial_relay', '_retry_later'):
         cctx = e.method_ctx(QUEUE, meth)
-        cg = e.build(cctx, raises=lambda b, n, r: set())
+        # together with the private helpers the bouncing was moved into
+        cg = e.build(cctx, raises=lambda b, n, r: set(),
+                     inline=e.inline_same_self(deny=[
+                         '_perm_fail', '_split_by_reply', '_remove',
+                         '_add_queued', '_retry_later', '_pool_spawn',
+                         '_pool_run', '_pool_imap', '_bounce']),
+                     max_depth=4)
         loops = [n for n in cg.of_kind('iter') if isinstance(n.ast, ast.For)
                  and '_split_by_reply' in ast.unparse(n.ast.iter)]
         rep.evaluations += 1
@@ -410,6 +416,25 @@ def b3(e: Engine, rep: Report):
                     '_split_by_reply' in ast.unparse(f.iter):
                 group_vars |= {x.id for x in ast.walk(f.target)
                                if isinstance(x, ast.Name)}
+        # a helper called from except blocks with the caught exception:
+        # its parameter stands for a handler name
+        for i, prm in enumerate(m.params[1:] if m.params[:1] == ['self']
+                                else m.params):
+            sites = []
+            for m2 in c.methods.values():
+                hn2 = {h.name for h in ast.walk(m2.node)
+                       if isinstance(h, ast.ExceptHandler) and h.name}
+                for x in walk_own(m2.node):
+                    if isinstance(x, ast.Call) and \
+                            ast.unparse(x.func) == 'self.' + mname:
+                        a = x.args[i] if i < len(x.args) else None
+                        sites.append(isinstance(a, ast.Name) and
+                                     a.id in hn2)
+            rebound = any(isinstance(x, ast.Name) and x.id == prm and
+                          isinstance(x.ctx, ast.Store)
+                          for x in ast.walk(m.node))
+            if sites and all(sites) and not rebound:
+                handler_names.add(prm)
         for n in walk_own(m.node):
             if not (isinstance(n, ast.Call) and
                     ast.unparse(n.func) == 'self._perm_fail' and
